@@ -336,6 +336,28 @@ func (s *Sim) opBatch(op *Op) {
 			if !s.W.IsLocked() {
 				s.violate("C09", "cb.lock", name+"/batchfn", false, "world not locked inside %s callback", name)
 			}
+			// a query run from inside the callback (about the only thing a callback may do on the
+			// locked world) yields alive entities only, each once; the entity of the callback is one of them
+			if n := len(cb.seen); (n == 2 || n == 5) && s.lockDepth < 62 {
+				s.C.Checks["query.in_batch_callback"]++
+				q := ecs.NewFilter0(s.W).Query()
+				seen, self := map[ecs.Entity]bool{}, 0
+				for q.Next() {
+					x := q.Entity()
+					if !s.W.Alive(x) || seen[x] {
+						s.violate("C03", "query.exact", "in_batch_callback/"+name, false, "a query run from inside the %s callback for %v yields %v (alive=%v, seen before=%v)", name, e, x, s.W.Alive(x), seen[x])
+						q.Close()
+						break
+					}
+					seen[x] = true
+					if x == e {
+						self++
+					}
+				}
+				if self != 1 && !s.fatal {
+					s.violate("C03", "query.exact", "in_batch_callback/"+name+"/self", false, "a query run from inside the %s callback for %v yields that entity %d times", name, e, self)
+				}
+			}
 		}
 	}
 	okCall := false
